@@ -72,6 +72,26 @@ def detect(wt, i, checks):
     return res
 
 
+def detect_wt(wt, i, checks):
+    """Like detect, but the change is applied in the scratch worktree and the checks import ufl from there
+    (PYTHONPATH precedes the editable install of /repo); /repo is not touched, no evidence is written."""
+    patch = f"{wt}/out/patch_{i}.diff"
+    sh("git checkout -- .", cwd=wt)
+    rc, out = sh(f"git apply {patch}", cwd=wt)
+    if rc != 0:
+        print("patch does not apply:", out[-300:])
+        return
+    try:
+        for c in checks:
+            rc, out = sh(f"./check {c}", cwd="/verif", env={"PYTHONPATH": wt, "VERIF_NO_EVIDENCE": "1", "VERIF_TIER": "quick"}, timeout=3000)
+            fps = sorted({l.split("[")[-1].rstrip("]") for l in out.splitlines() if l.strip().startswith("violation:")})
+            print(f"  {c}: rc={rc} {'DETECTED' if rc == 1 else 'missed' if rc == 0 else 'MACHINERY'} {fps[:3]}", flush=True)
+            if rc == 2:
+                print("     ", "\n      ".join(out.strip().splitlines()[-6:]))
+    finally:
+        sh("git checkout -- .", cwd=wt)
+
+
 def keep(wt, i, name, prop, ran=""):
     d = f"/verif/seeded/{name}"
     os.makedirs(d, exist_ok=True)
@@ -95,5 +115,7 @@ if __name__ == "__main__":
         sys.exit(0 if confirm(sys.argv[2], sys.argv[3]) else 1)
     elif cmd == "detect":
         detect(sys.argv[2], sys.argv[3], sys.argv[4:])
+    elif cmd == "detectwt":
+        detect_wt(sys.argv[2], sys.argv[3], sys.argv[4:])
     elif cmd == "keep":
         keep(sys.argv[2], sys.argv[3], sys.argv[4], sys.argv[5], " ".join(sys.argv[6:]))
